@@ -39,6 +39,16 @@ Fixpoint wf (E : env) (t : ty) : bool :=
   | _ => false
   end.
 
+(* the precondition of the partial round-trip theorem (decidable): no 1-tuple anywhere, and no
+   applied definition whose sole argument is a tuple.  These are exactly the two places where the
+   printed text means something else to Python: `(a)` is `a`, and `X[(a, b)]` is `X[a, b]`. *)
+Fixpoint safe (t : ty) : bool :=
+  match t with
+  | TTuple ts => negb (Nat.eqb (length ts) 1) && forallb safe ts
+  | TApp _ args => negb (is_sole_tuple args) && forallb safe args
+  | _ => true
+  end.
+
 (* the builtin numeric names denote the numeric definitions (they are not shadowed) *)
 Definition env_ok (E : env) : Prop := forall k, slookup (num_name k) E = Some (DNum k).
 
